@@ -21,5 +21,8 @@ PROPS = {
     "C16": dict(kind="check", quick=120, thorough=2400, quick_fuzz=1500, thorough_fuzz=30000,
                 property_files=("C16text",), extra_kinds=("c16text",),
                 runtime=_RT + ["TextPipeline.vo"], targets=["Properties/C16.vo", "Properties/C16text.vo"]),
-    "C19": dict(kind="check", quick=3, thorough=60, runtime=_RT, targets=["Properties/C19.vo"]),
+    # C19lines: the same property in LINE NUMBERS of the text (coq/Front/LinesOf.v; extra slice
+    # harness/kind_c19lines.py evaluates ctx_line / line_span inside coqc)
+    "C19": dict(kind="check", quick=3, thorough=60, property_files=("C19lines",), extra_kinds=("c19lines",),
+                runtime=_RT + ["Front/LinesOf.vo"], targets=["Properties/C19.vo", "Properties/C19lines.vo"]),
 }
